@@ -264,8 +264,9 @@ func (w *World) VerifyFunc(fs *FuncSpec) {
 			continue
 		}
 		if n < 1 || n > fi.NLoops {
-			w.errorf("%s: contract names loop %d but the function has %d loops", fi.Key, n, fi.NLoops)
-			return
+			// fewer loops than the contract knows (a changed function): the surplus loop clauses
+			// have nothing to attach to and are ignored
+			w.notef("%s: contract names loop %d but the function has %d loops: clauses of loop %d ignored", fi.Key, n, fi.NLoops, n)
 		}
 	}
 	// a function with frame "assigns nothing" never changes memory that existed at entry (every
@@ -741,7 +742,20 @@ func (x *Exec) applyHints(st *State, cls []*Clause, ev *Env, fi *FuncInfo) {
 	for _, c := range cls {
 		switch c.Kind {
 		case "use":
-			x.applyUse(st, c, ev, fi)
+			// a hint that does not fit the (changed) code is dropped - hints only add provable facts -
+			// and recorded as an engine error, so the run cannot end with exit 0
+			func() {
+				defer func() {
+					if r := recover(); r != nil {
+						e, ok := r.(vcErr)
+						if !ok {
+							panic(r)
+						}
+						x.W.errorOnce(e.msg + " (hint dropped)")
+					}
+				}()
+				x.applyUse(st, c, ev, fi)
+			}()
 		case "reveal":
 			for _, n := range strings.Fields(strings.ReplaceAll(c.Text, ",", " ")) {
 				h.Reveal[n] = true
@@ -900,7 +914,12 @@ func (x *Exec) loopSpec(fr *frame, lp *Loop) *LoopSpec {
 	}
 	ls := fr.fi.Spec.Loops[lp.Ordinal]
 	if ls == nil {
-		vfail("%s: loop %d has no invariant", fr.fi.Key, lp.Ordinal)
+		// a loop the contract does not know (a changed function): abstracted soundly by the
+		// invariant "true" - everything the loop may store to is havocked, nothing is assumed
+		// about it; obligations after the loop that needed an invariant then fail and are reported
+		x.W.noteOnce(fmt.Sprintf("%s: loop %d has no invariant in the contract: abstracted by havoc (invariant true)", fr.fi.Key, lp.Ordinal))
+		ls = &LoopSpec{N: lp.Ordinal}
+		fr.fi.Spec.Loops[lp.Ordinal] = ls
 	}
 	return ls
 }
@@ -919,7 +938,10 @@ func (x *Exec) checkInvariants(st *State, fr *frame, lp *Loop, phase string) {
 		n++
 		t, err := ev.EvalBool(c.E)
 		if err != nil {
-			vfail("%s: invariant %s: %v", c.Line, c.Text, err)
+			// the clause does not fit the (changed) code: it is dropped - which only weakens what is
+			// assumed - and recorded as an engine error, so the run can never end with exit 0
+			x.W.errorOnce(fmt.Sprintf("%s: invariant %s: %v (clause dropped)", c.Line, c.Text, err))
+			continue
 		}
 		x.hints = saved
 		if phase == "entry" {
@@ -1056,7 +1078,8 @@ func (x *Exec) havocLoop(st *State, fr *frame, lp *Loop) {
 		}
 		t, err := ev.EvalBool(c.E)
 		if err != nil {
-			vfail("%s: invariant %s: %v", c.Line, c.Text, err)
+			x.W.errorOnce(fmt.Sprintf("%s: invariant %s: %v (clause dropped)", c.Line, c.Text, err))
+			continue
 		}
 		st.assume(t)
 	}
